@@ -204,6 +204,12 @@ structure Cfg where
   unitMap : List (Str × Str)
   unitValueMap : List (Str × Nat)
   doubleNumbers : List (Str × Dbl)
+  /-- variant switch `fix: duration unit codes`: the TIMEX is built by `_duration_timex` (numeric prefix of the unit code
+  multiplied out, `WE` / `WD` kept whole) instead of `f'P{is_time}{num}{unit[0]}'` -/
+  fixUnit : Bool := false
+  /-- variant switch `fix: duration value`: `_exact_product` (the float amount's printed decimal times the unit length,
+  rounded once) instead of the float product `num * unit_value_map[source_unit]` -/
+  fixValue : Bool := false
 
 def lookup {β : Type} (m : List (Str × β)) (k : Str) : Option β := (m.find? fun p => p.1 == k).map (·.2)
 
@@ -213,8 +219,10 @@ def rowsOf (culture : Str) : List (Str × Str × Nat) :=
 
 /-- `extra` = the rows of the configuration that are not in the regenerated table (unit codes `10Y`, `2W`, `WE`, `WD`,
 `3MON`, `6MON`; `none` = the spelling has no entry in `unit_value_map`) -/
-def cfgOf (culture : Str) (extra : List (Str × Str × Option Nat)) (dn : List (Str × Dbl)) : Cfg :=
-  { unitMap := (rowsOf culture).map (fun r => (r.1, r.2.1)) ++ extra.map (fun r => (r.1, r.2.1)),
+def cfgOf (culture : Str) (extra : List (Str × Str × Option Nat)) (dn : List (Str × Dbl))
+    (fixUnit : Bool := false) (fixValue : Bool := false) : Cfg :=
+  { fixUnit := fixUnit, fixValue := fixValue,
+    unitMap := (rowsOf culture).map (fun r => (r.1, r.2.1)) ++ extra.map (fun r => (r.1, r.2.1)),
     unitValueMap := (rowsOf culture).map (fun r => (r.1, r.2.2)) ++ extra.filterMap (fun r => r.2.2.map fun v => (r.1, v)),
     doubleNumbers := dn }
 
@@ -239,8 +247,50 @@ def Res.success : Res → Bool
   | .ok _ _ => true
   | _ => false
 
+def sWE : Str := [87, 69]
+def sWD : Str := [87, 68]
+
+/-- `regex.match(r'(\d+)(.+)', unit)`: the leading run of digits (greedy, giving one back when nothing follows) as an
+`int`, and the rest — `none` when the code does not start with a digit or is a single digit -/
+def splitCode (unit : Str) : Option (Nat × Str) :=
+  match spanDigits unit with
+  | ([], _) => none
+  | (ds, []) => if ds.length < 2 then none else (digits ds.dropLast).map fun k => (k, ds.drop (ds.length - 1))
+  | (ds, rest) => (digits ds).map fun k => (k, rest)
+
+/-- `f'P{is_time}{num}{unit[0]}'` (the tree before `fix: duration unit codes`) -/
+def timexOld (n : Num) (c : Nat) (rest : Str) : Str :=
+  [80] ++ (if isLessThanDay (c :: rest) then [84] else []) ++ numStr n ++ [c]
+
+/-- `_duration_timex(num, unit)` (after the fix): `none` = the multiplication overflowed (not modelled) -/
+def timexFixed (n : Num) (unit : Str) : Option Str :=
+  let render (n : Num) (u : Str) : Str :=
+    [80] ++ (if isLessThanDay u then [84] else []) ++ numStr n ++ (if u = sWE ∨ u = sWD then u else u.take 1)
+  match splitCode unit with
+  | some (k, u) => (mulNum n k).map fun n' => render n' u
+  | none => some (render n unit)
+
+/-- the decimal `repr(x)` denotes, as a rational (`Fraction(repr(num))`) -/
+def reprQ (x : Dbl) : Nat × Nat :=
+  let c := (shortest x.num x.den 17 1).getD (roundDec x.num x.den 17)
+  if c.2 ≥ 0 then (c.1 * 10 ^ c.2.toNat, 1) else (c.1, 10 ^ (-c.2).toNat)
+
+/-- `float_or_int(_exact_product(num, k))` (after `fix: duration value`): an `int` amount is multiplied exactly, a float
+amount is multiplied as the decimal it prints as and rounded once -/
+def mulNumFixed (n : Num) (k : Nat) : Option Num :=
+  match n with
+  | .int v => some (.int (v * k))
+  | .flt x => (Dbl.ofQ x.neg ((reprQ x).1 * k) (reprQ x).2).map floatOrInt
+
+def timexOf (cfg : Cfg) (n : Num) (c : Nat) (rest : Str) : Option Str :=
+  if cfg.fixUnit then timexFixed n (c :: rest) else some (timexOld n c rest)
+
+def valueOf (cfg : Cfg) (n : Num) (secs : Nat) : Option Num :=
+  if cfg.fixValue then mulNumFixed n secs else mulNum n secs
+
 /-- The tail every path shares: `source_unit not in unit_map → fail`; the guard (only where `guard`);
-`num = float_or_int(num)`; `timex = f'P{is_time}{num}{unit[0]}'`; `value = float_or_int(num * unit_value_map[source_unit])`. -/
+`num = float_or_int(num)`; the TIMEX (`timexOf`: `f'P{is_time}{num}{unit[0]}'`, or `_duration_timex` in the repaired
+variant); `value = float_or_int(num * unit_value_map[source_unit])` (`valueOf`: or `_exact_product`). -/
 def assemble (cfg : Cfg) (num : Option Dbl) (sourceUnit : Str) (guard : Bool) : Res :=
   match num with
   | none => .raises
@@ -253,14 +303,16 @@ def assemble (cfg : Cfg) (num : Option Dbl) (sourceUnit : Str) (guard : Bool) : 
         let n := floatOrInt num
         match unit with
         | [] => .raises
-        | c :: _ =>
-          let timex := [80] ++ (if isLessThanDay unit then [84] else []) ++ numStr n ++ [c]
-          match lookup cfg.unitValueMap sourceUnit with
+        | c :: rest =>
+          match timexOf cfg n c rest with
           | none => .raises
-          | some secs =>
-            match mulNum n secs with
+          | some timex =>
+            match lookup cfg.unitValueMap sourceUnit with
             | none => .raises
-            | some v => .ok timex v
+            | some secs =>
+              match valueOf cfg n secs with
+              | none => .raises
+              | some v => .ok timex v
 
 /-- `parse_number_with_unit_and_suffix(text)`: `sufNum` = the `suffix_num` group of the `suffix_and_regex` match in the
 text (`none` = no match, `some []` = group empty); the result is `double_numbers.get(num, 0)` or `0` — `none` stands for
